@@ -34,7 +34,9 @@ EXPLANATION = ("Proved (Lean, unbounded): Token::Match's documented language, th
                "Only sampled (CLI metamorphic pairs, never part of a proof): everything behind the token stream - dependence on names "
                "through ordered containers keyed by name, str() comparisons outside patterns, name-prefix tests, symbol-database "
                "definition order, value flow. Token classification (tokType/isName/varId) is assumed unchanged by the renaming.")
-THEOREMS = []   # filled below
+THEOREMS = ["Cppcheck.C05.match_equivariant", "Cppcheck.C05.match_equivariant_compiled", "Cppcheck.C05.match_equivariant_interpreted",
+            "Cppcheck.C05.findmatch_equivariant", "Cppcheck.C05.renaming_equivariant", "Cppcheck.C05.all_source_patterns_equivariant",
+            "Cppcheck.C05.all_source_patterns_equivariant_compiled"]
 MODULES = ["Cppcheck.Props.C05"]
 
 
@@ -195,17 +197,6 @@ def gen_text(ex):
             "def reserved : List Str := Cppcheck.MatchEquiv.reservedOf patterns strLiterals\n\n"
             "end Cppcheck.Gen.Reserved\n") % (ex["call_sites"], len(ex["patterns"]), len(ex["cmp_lits"]),
                                                lean_list("patterns", ex["patterns"]), lean_list("strLiterals", ex["cmp_lits"]))
-
-
-_EX = {}
-
-
-def translate(ctx):
-    ex = extract(ctx)
-    ctx.write_gen("Reserved", gen_text(ex))
-    _EX["ex"] = ex
-    return ex
-
 
 
 # ---- generated C programs (token lines) ------------------------------------------------------------------------------
@@ -492,12 +483,15 @@ def canon_finding(f, posmap=None, namemap=None):
     return (f["id"], f["severity"], f["inconclusive"], nm(f["msg"]), nm(f["verbose"]), tuple(locs), tuple(nm(s) for s in f["syms"]))
 
 
-def make_rewrite(rng, prog, kind, reserved_all):
+def make_rewrite(rng, prog, kind, reserved_all, special=False):
     """returns dict(kind, text0, text1, posmap, namemap, detail)"""
     lines0 = layout_default(prog)
     text0, pos0 = render(lines0)
     namemap = None
-    if kind.startswith("layout"):
+    if kind == "layout:crlf":
+        text1 = text0.replace("\n", "\r\n")
+        posmap = dict(zip(pos0, pos0))
+    elif kind.startswith("layout"):
         st = kind.split(":")[1]
         text1, pos1 = render(lines0, rng, STYLES[st])
         posmap = dict(zip(pos0, pos1))
@@ -505,6 +499,9 @@ def make_rewrite(rng, prog, kind, reserved_all):
         pool = [n for n in NAME_POOL if n not in reserved_all and n not in prog["names"]]
         extra = ["v%d_%s" % (i, rng.choice("abcdefgh")) for i in range(40)] + ["a_really_long_identifier_%d" % i for i in range(6)] + ["q", "w", "e_", "t"]
         pool += [n for n in extra if n not in reserved_all and n not in prog["names"]]
+        if special:     # names with "suspicious" shapes: upper case (macro-like), leading underscores, prefixes, sort order
+            pool = [n for n in ["ABC", "MAXVAL", "FOO_BAR", "_x", "__y", "_Z9", "kBig", "m_x", "g_y", "s_z", "argc_", "dummy", "ret", "rc", "err", "ok",
+                                "aaaa", "ZZZZ", "a0", "Z0", "operator_", "std_", "T1", "B"] if n not in reserved_all and n not in prog["names"]] + pool[:6]
         rng.shuffle(pool)
         namemap = {}
         for n in prog["names"]:
@@ -607,5 +604,377 @@ def lex_nontrivial(src, out):
     return len(toks) >= 3 and ("/*" in src or "//" in src or '"' in src or any(len(core.unhx(t.split(":")[0])) > 1 and t.split(":")[3][:2] == "00" for t in toks))
 
 
+
+# ---- the check --------------------------------------------------------------------------------------------------------
+def cached_extract(ctx):
+    """extraction is a pure function of lib/*.cpp, lib/*.h, cfg/std.cfg and tools/matchcompiler.py: memoise on their content"""
+    h = hashlib.sha1()
+    files = sorted(glob.glob(os.path.join(core.REPO, "lib", "*.cpp")) + glob.glob(os.path.join(core.REPO, "lib", "*.h"))) + \
+        [os.path.join(core.REPO, "cfg", "std.cfg"), os.path.join(core.REPO, "tools", "matchcompiler.py"), os.path.abspath(__file__)]
+    for f in files:
+        h.update(f.encode()); h.update(open(f, "rb").read())
+    d = os.path.join(core.VERIF, ".build", "c05cache")
+    os.makedirs(d, exist_ok=True)
+    p = os.path.join(d, "extract-%s.json" % h.hexdigest()[:20])
+    if os.path.exists(p):
+        try:
+            return json.load(open(p))
+        except Exception:
+            pass
+    ex = extract(ctx)
+    for old in os.listdir(d):
+        try:
+            os.remove(os.path.join(d, old))
+        except OSError:
+            pass
+    json.dump(ex, open(p + ".tmp", "w"))
+    os.replace(p + ".tmp", p)
+    return ex
+
+
+def translate(ctx):
+    ex = cached_extract(ctx)
+    ctx.write_gen("Reserved", gen_text(ex))
+    return ex
+
+
+def py_pattern_lits(p):
+    """python twin of Cppcheck.MatchEquiv.patLits (compared with the Lean function through the driver)"""
+    out = []
+    cmds = {"%any%", "%assign%", "%bool%", "%char%", "%comp%", "%num%", "%cop%", "%op%", "%or%", "%oror%", "%str%", "%type%", "%name%", "%var%", "%varid%"}
+    def atom(a):
+        if a == "%or%":
+            out.append("|")
+        elif a == "%oror%":
+            out.append("||")
+        elif a not in cmds:
+            out.append(a)
+    for w in p.split(" "):
+        if not w:
+            continue
+        if len(w) > 2 and w[0] == "[" and w[-1] == "]":
+            out += list(w[1:-1])
+        elif w.find("|") > 0:
+            for a in w.split("|"):
+                if a:
+                    atom(a)
+        elif w[:2] == "!!":
+            out.append(w[2:])
+        else:
+            atom(w)
+    return out
+
+
+def reserved_sets(ex, tok_types):
+    lean_like = set()
+    for p in ex["patterns"]:
+        lean_like.update(py_pattern_lits(p))
+    lean_like.update(ex["cmp_lits"])
+    lean_like.update(tok_types)
+    allres = set(lean_like) | set(ex["id_lits"]) | set(ex["cfg_words"]) | set(C_KEYWORDS)
+    for p in ex["patterns"]:
+        allres.update(WORD.findall(p))
+    return lean_like, allres
+
+
+LINE_LAYOUTS = ("layout:lines", "layout:oneline", "layout:mixed")
+KEY_UNION = "layout-lines:uninitStructMember-innerunion-by-line"
+KEY_SHADOW = "layout-lines:shadowVariable-later-declaration-same-line"
+KEY_CR = "lexer-file:lone-cr-unget"
+
+
+def classify_meta(rw, d, f_with):
+    """known-finding classes of a metamorphic difference; returns key or None.  Every differing finding must fall into ONE class."""
+    if rw["kind"] not in LINE_LAYOUTS and not rw["kind"].startswith("witness"):
+        return None
+    if d["unmappable"]:
+        return None
+    diff = d["missing"] + d["extra"]
+    ids = set(x[0] for x in diff)
+    if ids == {"uninitStructMember"}:
+        # the struct of the flagged member has an anonymous union (the code decides "inside the union" by line numbers)
+        if re.search(r"struct\s+\w+\s*(/\*.*?\*/\s*)*\{[^{}]*union\s*(/\*.*?\*/\s*)*\{", rw["text0"], re.S):
+            return KEY_UNION
+        return None
+    if ids == {"shadowVariable"}:
+        # reported only where the shadowed declaration sits on the same line *behind* the shadowing one
+        for x in diff:
+            locs = x[5]
+            if len(locs) != 2 or not (locs[0][0] == locs[1][0] and locs[1][1] > locs[0][1]):
+                return None
+        return KEY_SHADOW
+    return None
+
+
+def meta_pairs(ctx, res, pairs, label):
+    """run P_impl on CLI pairs with a pool of cppcheck processes; returns list of (pair, ok, detail)"""
+    def work(pr):
+        try:
+            ok, d = compare_pair(ctx, pr)
+            if not ok:                      # confirm on fresh runs (the binary may be relinked by a concurrent check)
+                ok, d = compare_pair(ctx, pr, fresh=True)
+            return ok, d
+        except core.CheckBroken as ex:
+            return None, dict(error=str(ex))
+    with concurrent.futures.ThreadPoolExecutor(max_workers=8) as pool:
+        results = list(pool.map(work, pairs))
+    out = []
+    for rw, (ok, d) in zip(pairs, results):
+        if ok is None:
+            res.count("cli-run-failed")
+            continue
+        nontriv = d["n0"] > 1 and rw["text0"] != rw["text1"]
+        samp = None
+        if len(res.samples) < 12 and res.evaluations % 37 == 0:
+            samp = dict(tie="cli-metamorphic", kind=rw["kind"], original=rw["text0"][:400], rewrite=rw["text1"][:400], findings=d["ids0"], equal=ok)
+        res.case("M|" + rw["kind"] + "|" + rw["text0"] + "|" + rw["text1"], nontriv, samp)
+        res.count("meta:" + rw["kind"])
+        for i in d["ids0"]:
+            res.count("finding-id:" + i)
+        res.traces_validated += 1
+        out.append((rw, ok, d))
+    return out
+
+
+def report_meta(ctx, res, triples):
+    for rw, ok, d in triples:
+        if ok:
+            continue
+        key = classify_meta(rw, d, None)
+        ids = sorted(set([m[0] for m in d["missing"]] + [m[0] for m in d["extra"]] + [u["id"] for u in d["unmappable"]]))
+        res.violation("findings differ under a meaning-preserving rewrite (%s): ids %s; missing in rewrite: %s; only in rewrite: %s; unmappable: %s" %
+                      (rw["kind"], ids, d["missing"][:3], d["extra"][:3], [u["id"] for u in d["unmappable"]][:3]),
+                      dict(kind="meta", rewrite=rw["kind"], text0=rw["text0"], text1=rw["text1"], posmap=[[list(a), list(b)] for a, b in rw["posmap"].items()],
+                           namemap=rw["namemap"], missing=d["missing"], extra=d["extra"], replay_cmd="./check.py C05 --replay <this file>"),
+                      concrete=True, key=key)
+
+
+def lex_tie(ctx, res, drv, exe, srcs, name):
+    ops = ["lex " + core.hx(t) for t in srcs]
+    rc, impl, err = core.run_lines(exe, [], ops)
+    rc, model, err2 = core.run_lines(drv, [], ops)
+    if len(impl) != len(ops) or len(model) != len(ops):
+        res.oblig("correspondence:" + name, False, "correspondence", "stream length mismatch ops=%d impl=%d model=%d %s %s" % (len(ops), len(impl), len(model), err[-200:], err2[-200:]))
+        return [], impl, model
+    mism = []
+    for i, (sct, a, b) in enumerate(zip(srcs, impl, model)):
+        if b == "U":
+            res.count("lex:outside-model")
+            continue
+        res.count("lex:in-model")
+        samp = dict(tie=name, src=sct[:120], impl=a[:300], model=b[:300]) if (i % max(1, len(ops) // 3) == 1) else None
+        res.case(name + "|" + sct, lex_nontrivial(sct, a), samp)
+        if a != b:
+            mism.append(i)
+    res.traces_validated += len(ops) - len(mism)
+    res.oblig("correspondence:" + name, not mism, "correspondence",
+              "" if not mism else "%d of %d sources differ; first: src=%r impl=%s model=%s" % (len(mism), len(ops), srcs[mism[0]], impl[mism[0]][:400], model[mism[0]][:400]))
+    return mism, impl, model
+
+
+def has_lone_cr(s):
+    return re.search(r"\r(?!\n)", s[:-1] if s.endswith("\r") else s) is not None or ("\r" in s[:-1] and re.search(r"\r[^\n]", s) is not None)
+
+
+def file_tie(ctx, res, exe, srcs, buf_out):
+    """the constructor the CLI uses (FileStream) against the buffer constructor the model is tied to"""
+    d = os.path.join(ctx.tmp, "lexf")
+    os.makedirs(d, exist_ok=True)
+    rc, fout, err = core.run_lines(exe, [d], ["lexf " + core.hx(t) for t in srcs])
+    if len(fout) != len(srcs):
+        res.oblig("correspondence:lexer-file-vs-buffer", False, "correspondence", "stream length mismatch: %s" % err[-300:])
+        return
+    bad = 0
+    for sct, a, b in zip(srcs, buf_out, fout):
+        if a == b:
+            res.traces_validated += 1
+            continue
+        if re.search(r"\d'$", sct) or sct.endswith("\r"):
+            res.count("lexf:eof-stream-quirk")          # peek() at EOF: the buffer stream goes bad, the file stream does not (no token of a complete file differs)
+            continue
+        key = KEY_CR if re.search(r"\r(?!\n)", sct) else None
+        bad += 1
+        res.violation("simplecpp::TokenList(filename) and TokenList(buffer) lex the same bytes differently: src=%r file=%s buffer=%s" % (sct[:200], b[:300], a[:300]),
+                      dict(kind="lexfile", src=core.hx(sct), replay_cmd="./check.py C05 --replay <this file>"), concrete=True, key=key)
+        if bad > 25:
+            break
+
+
+def match_tie(ctx, res, drv, exe, ex, lean_like, allres, n_pat, per):
+    """P_impl of part 1 on the real interpreted matcher: Match(p, ts) == Match(p, rename(ts)); plus impl == model `sem`"""
+    rng = ctx.rng
+    usable = [p for p in ex["patterns"] if "\\" not in p and '"' not in p and p.strip()]
+    pats = rng.sample(usable, min(n_pat, len(usable)))
+    fresh_pool = [n for n in NAME_POOL + ["ABC", "kBig", "_x9", "zz_top", "Q"] if n not in allres]
+    ops, meta = [], []
+    for p in pats:
+        lits = [w for w in re.split(r"[ |]", p) if w and not w.startswith(("%", "[", "!!"))] or ["x"]
+        for _ in range(per):
+            v = rng.choice([1, 2, 3]) if "%varid%" in p else 0
+            toks = c33.gen_tokens(rng, p, v, lits)
+            names = sorted(set(s for s, vi in toks if IDENT.match(s) and s not in lean_like))
+            if not names:
+                # plant a renamable name so that the case is not trivial
+                toks = toks + [(rng.choice(["foo_1", "cnt", "x9"]), rng.choice([0, 4]))]
+                names = sorted(set(s for s, vi in toks if IDENT.match(s) and s not in lean_like))
+            pool = [n for n in fresh_pool if n not in names]
+            rng.shuffle(pool)
+            sigma = {n: pool[k] for k, n in enumerate(names) if k < len(pool) and rng.random() < 0.85}
+            toks2 = [(sigma.get(s, s), vi) for s, vi in toks]
+            for tk in (toks, toks2):
+                ops.append("match %s %d %d %s" % (core.hx(p), v, len(tk), " ".join("%s %d" % (core.hx(s), vi) for s, vi in tk)))
+            meta.append((p, v, toks, toks2, sigma))
+    rc, out, err = core.run_lines(exe, [], ops)
+    if len(out) != len(ops):
+        res.oblig("correspondence:match-renamed", False, "correspondence", "harness produced %d lines for %d ops: %s" % (len(out), len(ops), err[-300:]))
+        return
+    # model side: documented language on the same typed tokens + the hypothesis `avoids` evaluated by the Lean definition
+    mops, aops = [], []
+    for k, (p, v, toks, toks2, sigma) in enumerate(meta):
+        for j, tk in enumerate((toks, toks2)):
+            tys = re.match(r"^T(.*) \| I (\S+)$", out[2 * k + j]).group(1).split()
+            mops.append("sem %s %d %s" % (core.hx(p), v, " ".join("%s %s %d %s" % (core.hx(s), ty.split(":")[0], vi, ty.split(":")[1]) for (s, vi), ty in zip(tk, tys))))
+        aops.append("avoids " + " ".join("%s %s" % (core.hx(a), core.hx(b)) for a, b in sorted(sigma.items())))
+    rc, mout, err = core.run_lines(drv, [], mops)
+    rc, aout, err = core.run_lines(drv, [], aops)
+    bad_model, bad_avoid, bad_types = [], [], []
+    for k, (p, v, toks, toks2, sigma) in enumerate(meta):
+        m0 = re.match(r"^T(.*) \| I (\S+)$", out[2 * k]); m1 = re.match(r"^T(.*) \| I (\S+)$", out[2 * k + 1])
+        I0, I1 = m0.group(2), m1.group(2)
+        changed = toks != toks2
+        res.case("match|%s|%d|%s|%s" % (p, v, toks, sorted(sigma.items())), changed and len(toks) > 0,
+                 dict(tie="match-renamed", pattern=p, tokens=" ".join(s for s, _ in toks), renamed=" ".join(s for s, _ in toks2), impl=I0, impl_renamed=I1) if k % max(1, len(meta) // 3) == 0 else None)
+        res.count("match:" + ("renamed" if changed else "unchanged"))
+        if aout[k] != "1":
+            bad_avoid.append((sigma, aout[k]))
+        if m0.group(1) != m1.group(1):
+            bad_types.append((p, toks, toks2))          # the renaming changed a token classification: outside the premise
+            res.count("match:classification-changed")
+            continue
+        if I0 != I1:
+            res.violation("Token::Match verdict changes under a renaming that avoids the reserved set: pattern %r tokens %s renamed %s: %s vs %s" % (p, toks, toks2, I0, I1),
+                          dict(kind="match", pattern=p, v=v, tokens=toks, renamed=toks2, sigma=sigma, replay_cmd="./check.py C05 --replay <this file>"), concrete=True, key=None)
+        exp = {"1": "1", "0": "0", "E": "E"}
+        if mout[2 * k] != I0 or mout[2 * k + 1] != I1:
+            if " " in "".join(s for s, _ in toks):
+                continue
+            bad_model.append((p, toks, I0, mout[2 * k], I1, mout[2 * k + 1]))
+        else:
+            res.traces_validated += 2
+    res.oblig("correspondence:match-renamed-vs-language", not bad_model, "correspondence", "" if not bad_model else "%d differ; first %s" % (len(bad_model), bad_model[0]))
+    res.oblig("T1:generated-renamings-avoid-reserved(lean-definition)", not bad_avoid, "translation", "" if not bad_avoid else str(bad_avoid[:2]))
+    res.oblig("T1:renaming-keeps-token-classification", len(bad_types) * 50 <= max(1, len(meta)), "translation", "" if not bad_types else "%d of %d; first %s" % (len(bad_types), len(meta), bad_types[0]))
+
+
+def load_corpus():
+    p = os.path.join(core.VERIF, "corpus", "C05", "witnesses.json")
+    return json.load(open(p)) if os.path.exists(p) else []
+
+
+def witness_rw(w):
+    return dict(kind="witness:" + w["rewrite"], text0=w["text0"], text1=w["text1"], posmap={tuple(a): tuple(b) for a, b in w["posmap"]}, namemap=w.get("namemap"))
+
+
 def run(ctx, res):
-    raise core.CheckBroken("C05 under construction")
+    rng = ctx.rng
+    thorough = ctx.tier == "thorough"
+    t00 = time.time()
+    ex = translate(ctx)
+    res.extra["translate_seconds"] = round(time.time() - t00, 1)
+    res.extra["patterns_distinct"] = len(ex["patterns"])
+    res.extra["pattern_call_sites"] = ex["call_sites"]
+    res.extra["compared_literals"] = len(ex["cmp_lits"])
+    res.extra["str_comparison_shapes"] = ex["shapes"]
+    tm = {}
+    t0 = time.time()
+    core.prove(ctx, res, MODULES, THEOREMS)
+    drv = ctx.driver("drv_c05")
+    exe = ctx.harness("c05")
+    tm["prove+build"] = round(time.time() - t0, 1); t0 = time.time()
+
+    # ---- T1: the reserved set ---------------------------------------------------------------------------------------
+    mc = c33.load_matchcompiler()
+    lean_like, allres = reserved_sets(ex, list(mc.tokTypes.keys()))
+    rc, out, err = core.run_lines(drv, [], ["reserved"])
+    lean_res = set(core.unhx(w).decode("latin-1") for w in (out[0].split() if out else []))
+    res.oblig("T1:reserved-python-equals-lean", lean_res == lean_like and len(lean_res) > 500, "translation",
+              "" if lean_res == lean_like else "python-only %s lean-only %s" % (sorted(lean_like - lean_res)[:5], sorted(lean_res - lean_like)[:5]))
+    res.oblig("T1:extraction-plausible", ex["call_sites"] > 3000 and len(ex["cmp_lits"]) > 100 and ex["shapes"].get("literal", 0) > 1500, "translation", str(ex["shapes"]))
+    res.extra["reserved_lean"] = len(lean_res)
+    res.extra["reserved_all_for_cli"] = len(allres)
+
+    tm["T1"] = round(time.time() - t0, 1); t0 = time.time()
+    # ---- corpus: witnesses of the known findings, replayed first -----------------------------------------------------
+    wit = load_corpus()
+    cli_w = [witness_rw(w) for w in wit if w["kind"] == "meta"]
+    trip = meta_pairs(ctx, res, cli_w, "corpus")
+    report_meta(ctx, res, trip)
+    lex_w = [core.unhx(w["src"]).decode("latin-1") for w in wit if w["kind"] == "lexfile"]
+
+    # ---- C1: lexer -----------------------------------------------------------------------------------------------------
+    n_lex = 12000 if thorough else 2000
+    srcs = lex_w + [gen_lex_source(rng, wild=(i % 3 == 0)) for i in range(n_lex)]
+    # real program texts too
+    progs = []
+    for i in range(40 if thorough else 8):
+        pr = gen_program(rng, allres)
+        t, _ = render(layout_default(pr), rng, STYLES[rng.choice(sorted(STYLES))])
+        srcs.append(t if rng.random() < 0.7 else t.replace("\n", "\r\n"))
+    mism, impl, model = lex_tie(ctx, res, drv, exe, srcs, "lexer")
+    file_tie(ctx, res, exe, srcs, impl)
+
+    tm["lexer"] = round(time.time() - t0, 1); t0 = time.time()
+    # ---- C3: pattern matching under renaming ---------------------------------------------------------------------------
+    match_tie(ctx, res, drv, exe, ex, lean_like, allres, 400 if thorough else 90, 6 if thorough else 4)
+
+    tm["match"] = round(time.time() - t0, 1); t0 = time.time()
+    # ---- M: CLI metamorphic pairs ------------------------------------------------------------------------------------------
+    n_prog = 220 if thorough else 22
+    kinds = ["layout:spaces", "layout:comments", "layout:lines", "layout:oneline", "layout:mixed", "layout:crlf", "rename", "reorder"]
+    pairs = []
+    for i in range(n_prog):
+        prog = gen_program(rng, allres)
+        for kind in kinds:
+            pairs.append(make_rewrite(rng, prog, kind, allres))
+        if thorough:
+            pairs.append(make_rewrite(rng, prog, "rename", allres, special=True))
+            pairs.append(make_rewrite(rng, prog, "reorder", allres))
+    t0 = time.time()
+    trip = meta_pairs(ctx, res, pairs, "generated")
+    tm["cli"] = round(time.time() - t0, 1)
+    res.extra["stage_seconds"] = tm
+    res.extra["cli_pairs"] = len(pairs)
+    res.extra["cli_seconds"] = round(time.time() - t0, 1)
+    report_meta(ctx, res, trip)
+    res.notes.append("outside the model (only sampled by the CLI pairs): name dependence through ordered containers, str() comparisons outside patterns, "
+                     "definition-order dependence of the symbol database / value flow")
+
+
+def replay(ctx, res, rp):
+    if rp.get("kind") == "meta":
+        rw = dict(kind="witness:" + rp.get("rewrite", "?"), text0=rp["text0"], text1=rp["text1"], posmap={tuple(a): tuple(b) for a, b in rp["posmap"]}, namemap=rp.get("namemap"))
+        ok, d = compare_pair(ctx, rw, fresh=True)
+        print("replay: findings %s under the rewrite (missing=%s extra=%s)" % ("EQUAL" if ok else "DIFFER", d["missing"][:3], d["extra"][:3]))
+        if not ok:
+            print("VIOLATION property=C05 replay=(replayed)")
+        return 0 if ok else 1
+    if rp.get("kind") == "lexfile":
+        exe = ctx.harness("c05")
+        d = os.path.join(ctx.tmp, "lexf"); os.makedirs(d, exist_ok=True)
+        rc, a, err = core.run_lines(exe, [d], ["lex " + rp["src"], "lexf " + rp["src"]])
+        same = len(a) == 2 and a[0] == a[1]
+        print("replay: buffer=%s file=%s" % (a[0] if a else "?", a[1] if len(a) > 1 else "?"))
+        if not same:
+            print("VIOLATION property=C05 replay=(replayed)")
+        return 0 if same else 1
+    if rp.get("kind") == "match":
+        exe = ctx.harness("c05")
+        ops = ["match %s %d %d %s" % (core.hx(rp["pattern"]), rp["v"], len(tk), " ".join("%s %d" % (core.hx(s), vi) for s, vi in tk)) for tk in (rp["tokens"], rp["renamed"])]
+        rc, a, err = core.run_lines(exe, [], ops)
+        same = len(a) == 2 and a[0].split("| I")[1] == a[1].split("| I")[1]
+        print("replay: %s" % a)
+        if not same:
+            print("VIOLATION property=C05 replay=(replayed)")
+        return 0 if same else 1
+    print("replay: unknown kind")
+    return 2
